@@ -1,6 +1,7 @@
 P = dict(
     harness='c06_misuse.cpp',
-    variants=['asan'],
+    variants=['asan', 'memcheck'],
+    memcheck_stride=dict(quick=100, thorough=40),
     level='exploration',
     technique='runtime monitoring: decision-table oracle (outstanding-address model + guard snapshot) against a private MemoryLeakDetector with a recording MemoryLeakFailure, '
               'driven directly (both node layouts, allocator objects and wrapper allocators) and through the global new/delete/new[]/delete[]/cpputest_malloc/free/realloc entry points; '
